@@ -1483,7 +1483,19 @@ class Interp(object):
             itv = SList(slen(itv.z), lambda i: SStr(chars(i)), T.str, 'list')
             symbolic = True
         if not symbolic:
-            items = self.iterate_concrete(itv)
+            if isinstance(itv, list):
+                # Python iterates a list by position over the LIVE object: items removed or added by the body shift what
+                # is visited next (a snapshot here would hide exactly the bugs that come from mutating during iteration)
+                def live(lst=itv):
+                    i = 0
+                    while i < len(lst):
+                        yield lst[i]
+                        i += 1
+                        if i > MAX_UNROLL:
+                            raise Unsupported('long concrete list')
+                items = live()
+            else:
+                items = self.iterate_concrete(itv)
             broke = False
             for x in items:
                 self.assign(s.target, x, fr)
